@@ -303,6 +303,8 @@ def run_case(lf, table, scratch, cats=False, kv=False, light=False, pf_kwargs=No
     pq = _pq()
     res = {"problems": [], "spec": "ok"}
     data, tbl = fmtlib.encode_file(pq, lf)
+    if lf.get("spec_stats"):
+        data = fmtlib.add_spec_stats(pq, data, lf["spec_stats"])       # Statistics.min_value / max_value / null_count as the format prescribes
     # the specification-level decoder reads the file back to the table (instance of the proved round trip)
     fm = fmtlib.Fmt(pq)
     d = fm.decode(data, True, tbl)
@@ -908,6 +910,16 @@ def gen_jobs(ctx):
                      "ncols": 1, "nrgs": rng.choice([1, 2]), "rows": rng.choice([12, 40]), "v2": v2, "optional": True, "split": "some",
                      "created_by": "parquet-mr version 1.12.3"}, stream="pandas-nulls-false")
                 jobs[-1][2]["pf_kwargs"] = {"pandas_nulls": False}
+    # 6s. footer statistics filled as the FORMAT prescribes (min_value / max_value without NaN and NULLs, null_count present or absent),
+    #     chunk contents adversarial w.r.t. their own statistics (deterministic block), and correct statistics on a share of random layouts:
+    #     a reader may use statistics only in ways that are sound
+    for lf, table in G.stats_block():
+        jobs.append((lf, table, {"expect": "decode", "stream": "spec-statistics"}))
+    for _ in range(40 if quick else 1500):
+        lf, table = G.gen_lfile(rng, {"coltype": rng.choice([G.COLTYPES[i] for i in (1, 10, 12, 18, 19, 13, 8, 3)]), "width": None,
+                                      "ncols": rng.choice([1, 2]), "created_by": rng.choice(["parquet-mr version 1.12.3", "parquet-cpp-arrow version 14.0.2"])})
+        G.attach_spec_stats(lf, table, null_count=rng.random() < 0.7)
+        jobs.append((lf, table, {"expect": "decode", "stream": "spec-statistics-random"}))
     # 6g. BIG pages (>= 64 KiB uncompressed): dictionary page, then dictionary-encoded data pages (+ a PLAIN fallback page), every codec -
     #     what a page reader returns must not alias a buffer a later page overwrites.  Model ties are skipped for these (cost), the
     #     specification decoder still reads every file back (instance of the round trip) and the real reader is compared cell by cell
